@@ -620,6 +620,11 @@ func (ex *Exec) applyContractSig(fr *frame, calleeKey string, pkg *types.Package
 		ev.vars[n] = tval{smt.Var(ex.freshName("pre!any."+n), ct.Foralls[n]), nil}
 	}
 	for _, r := range ct.Requires {
+		// a precondition tagged with property ids guards the postconditions carrying the same
+		// ids; where those are not assumed (relevantClause) it is not demanded either
+		if len(r.Tags) > 0 && !ex.relevantClause(r) {
+			continue
+		}
 		g := ev.bool(r.Expr)
 		if ex.inSpec == 0 {
 			ex.oblige(label+"/pre:"+r.Name, g, "")
@@ -635,6 +640,9 @@ func (ex *Exec) applyContractSig(fr *frame, calleeKey string, pkg *types.Package
 		instReq = func(i int) {
 			if i == len(fnames) {
 				for _, r := range ct.Requires {
+					if len(r.Tags) > 0 && !ex.relevantClause(r) {
+						continue
+					}
 					ex.assume(ev.bool(r.Expr))
 				}
 				return
@@ -657,7 +665,18 @@ func (ex *Exec) applyContractSig(fr *frame, calleeKey string, pkg *types.Package
 			ev.oldVars[names[i]] = tval{copyDeep(args[i]), ptypes[i]}
 		}
 	}
-	env.evalLets(ct, ev, true)
+	// let-bindings serve the postconditions: where none of them is assumed here (all tagged with
+	// properties the function under verification has no clause for) they are not evaluated
+	// (their evaluation reads state and may fork)
+	anyRelevant := false
+	for _, c := range ct.Ensures {
+		if ex.relevantClause(c) {
+			anyRelevant = true
+		}
+	}
+	if anyRelevant {
+		env.evalLets(ct, ev, true)
+	}
 	mods, err := parseModifies(ct.Modifies)
 	if err != nil {
 		ex.abort("modifies of %s: %v", ct.Key, err)
@@ -774,7 +793,9 @@ func (ex *Exec) applyContractSig(fr *frame, calleeKey string, pkg *types.Package
 		}
 		ex.callResults[label] = tval{res, rt}
 	}
-	env.evalLets(ct, ev, false)
+	if anyRelevant {
+		env.evalLets(ct, ev, false)
+	}
 	// every combination of instantiations of the quantified variables
 	ex.revealPrefix = resPrefix
 	defer func() { ex.revealPrefix = "" }()
